@@ -11,6 +11,7 @@ pub mod kinds;
 
 pub mod h_basic;
 pub mod h_leaf;
+pub mod h_msg;
 
 /// `#[kani::proof]` wrappers for the harnesses selected by the runner
 /// (generated per build shard by /verif/check; see DESIGN.md §6).
@@ -22,5 +23,6 @@ pub fn all_harnesses() -> Vec<(&'static str, fn())> {
     let mut v: Vec<(&'static str, fn())> = Vec::new();
     v.extend_from_slice(h_basic::HARNESSES);
     v.extend_from_slice(h_leaf::HARNESSES);
+    v.extend_from_slice(h_msg::HARNESSES);
     v
 }
